@@ -309,10 +309,14 @@ func run(c *mon.Ctx) {
 	})
 	c.Floor("emitted_scte35.second_encoding_after_handle_edit", 500)
 	c.Floor("emitted_pmt.multi_packet", 500)
+	c.Floor("emitted_pmt.input_with_reserved_bits_cleared", 500)
 	c.Stream("emitted-pmt-multi-packet", c.N(2000, 400000), func(i int, r *gen.Rand) {
 		// reference-built PMTs of up to 1021 bytes, split over several packets, filtered to a subset
 		p := ref.GenPMT(r, 1+r.Intn(50))
 		sec := p.Section()
+		if r.Chance(3) && ref.ClearReservedPMT(sec, r) > 0 {
+			c.Count("emitted_pmt.input_with_reserved_bits_cleared")
+		}
 		pay := append(ref.PointerPrefix(r.PickInt([]int{0, 0, 1, 3, 40, r.Intn(150)})), sec...)
 		const pmtPID = 0x30
 		pk, _ := ref.Packetise(pmtPID, r.Intn(16), pay, ref.RandChunks(r, 1+len(pay)/60), r.Bool())
@@ -380,6 +384,9 @@ func run(c *mon.Ctx) {
 		sl := len(body) + 4
 		sec := append([]byte{0x02, 0xb0 | byte(sl>>8), byte(sl)}, body...)
 		sec = append(sec, ref.BE32(ref.CRC32MPEG2(sec))...)
+		if r.Chance(3) && ref.ClearReservedPMT(sec, r) > 0 {
+			c.Count("emitted_pmt.input_with_reserved_bits_cleared")
+		}
 		badIn := r.Chance(4)
 		if badIn {
 			sec[len(sec)-1-r.Intn(4)] ^= byte(1 + r.Intn(255)) // the input's own CRC_32 is wrong: the emitted section must still carry a right one
